@@ -678,7 +678,7 @@ class Case:
         self.focus = bool(focus)
         # sampling must not depend on generator-only steering keys, nor on the options that the signature classifier switches off
         # to see whether a violation needs them (focus-dependent geometry, replaced children)
-        self.key = json.dumps(strip(neutral(without_swap(recipe))), sort_keys=True)
+        self.key = json.dumps(strip(neutral(without_swap(without_shared(recipe)))), sort_keys=True)
         self.ctx = ctx
         self.recipe = recipe
         self.size = tuple(size)
@@ -1363,13 +1363,17 @@ def neutral(recipe):
     return recipe
 
 
-def sharing_kinds(recipe, out=None):
-    out = set() if out is None else out
+def sharing_kinds(recipe, out=None, depth=0):
+    """kinds of the containers that hold one object at several positions, innermost first"""
+    top = out is None
+    out = {} if out is None else out
     if isinstance(recipe, dict):
         for c in T.children_of(recipe) if recipe.get("k") else []:
             if c.get("k") == "same":
-                out.add(recipe["k"])
-            sharing_kinds(c, out)
+                out[recipe["k"]] = max(out.get(recipe["k"], 0), depth)
+            sharing_kinds(c, out, depth + 1)
+    if top:
+        return [k for k, _d in sorted(out.items(), key=lambda kv: (-kv[1], kv[0]))]
     return out
 
 
@@ -1715,16 +1719,20 @@ def report(ctx, recipe, size, viols, focus=True, hist=None):
             # which unusual ingredient does the violation need?  Each candidate is switched off on its own; a violation that vanishes
             # under several switches (switching one off also perturbs the sequence of probes) goes to the more specific structural one
             needs = []
-            if "Padding-given-width-as-fixed" in kinds_r and not run_same(q, without_fixedw_padding(r), s, focus, hist, key):
-                needs.append("|given-width-as-fixed")  # Padding(width=n) at size (): fine with a fixed Columns([('given', n, child)]) instead
-            if "decoration-child-replaced" in kinds_r and not run_same(q, without_swap(r), s, focus, hist, key):
-                needs.append("|child-replaced")  # original_widget assigned after construction: fine when passed to the constructor
+            # geometry-preserving switches first (they leave the sequence of probes untouched, so their verdict is exact)
             if "shared-widget-object" in kinds_r and not run_same(q, without_shared(r), s, focus, hist, key):
                 needs.append("|shared-widget-object")  # fine when every position holds an object of its own
-            if has_zero and not run_same(q, without_empty_columns(r), s, focus, hist, key):
-                needs.append("|zero-width-column")  # fine without the hidden columns
-            if has_fdep and not run_same(q, neutral(r), s, focus, hist, key):
-                needs.append("|focus-dependent-geometry")  # fine with those leaves made ordinary
+            if "decoration-child-replaced" in kinds_r and not run_same(q, without_swap(r), s, focus, hist, key):
+                needs.append("|child-replaced")  # original_widget assigned after construction: fine when passed to the constructor
+            if not needs:
+                if has_fdep and not run_same(q, neutral(r), s, focus, hist, key):
+                    needs.append("|focus-dependent-geometry")  # fine with those leaves made ordinary
+                if has_zero and not run_same(q, without_empty_columns(r), s, focus, hist, key):
+                    needs.append("|zero-width-column")  # fine without the hidden columns
+                if "Padding-given-width-as-fixed" in kinds_r and not run_same(q, without_fixedw_padding(r), s, focus, hist, key):
+                    needs.append("|given-width-as-fixed")  # Padding(width=n) at size (): fine with a fixed Columns([('given', n, child)]) instead
+                if "|zero-width-column" in needs and "|focus-dependent-geometry" in needs:
+                    needs.remove("|focus-dependent-geometry")  # removing focus growth also perturbs the probes: prefer the structural one
             if not needs:
                 # two known ingredients may each be sufficient on their own: switch all candidates off together
                 cands, rr = [], r
@@ -1769,7 +1777,7 @@ def report(ctx, recipe, size, viols, focus=True, hist=None):
                 path, mode = "Padding[w=given]", "fixed"
             if stale == "|shared-widget-object":
                 # every container above shows it too: name the container(s) that hold one object at several positions
-                sk = sorted(sharing_kinds(r))
+                sk = sharing_kinds(r)
                 if len(sk) > 1:
                     # several containers repeat an object: name the one whose un-sharing alone makes the violation vanish
                     alone = [k_ for k_ in sk if not run_same(q, without_shared(r, k_), s, focus, hist, key)]
